@@ -1,22 +1,39 @@
 import Driver.History
 import Driver.Copy
-/-! Model driver: one request per input line, first token selects the layer. -/
+import Driver.Api
+/-! Model driver.  Single-line requests: first token selects the layer.
+Multi-line requests: `begin <layer>` … `end`. -/
 
-def dispatch (line : String) : List String :=
-  match (line.trimAscii.toString.splitOn " ").filter (· ≠ "") with
+def tokens (line : String) : List String :=
+  (line.trimAscii.toString.splitOn " ").filter (· ≠ "")
+
+def dispatch (toks : List String) : List String :=
+  match toks with
   | "history" :: rest => Driver.History.handle rest
   | "copy" :: rest => Driver.Copy.handle rest
   | [] => []
   | _ => ["bad-layer"]
 
-partial def loop (h : IO.FS.Stream) (out : IO.FS.Stream) : IO Unit := do
+inductive Mode
+  | idle
+  | api (q : Driver.Api.Req)
+
+partial def loop (h : IO.FS.Stream) (out : IO.FS.Stream) (m : Mode) : IO Unit := do
   let line ← h.getLine
   if line.isEmpty then return ()
-  for l in dispatch line do
-    out.putStrLn l
-  loop h out
+  let toks := tokens line
+  match m, toks with
+  | .idle, ["begin", "api"] => loop h out (.api {})
+  | .idle, _ =>
+    for l in dispatch toks do out.putStrLn l
+    loop h out .idle
+  | .api q, ["end"] =>
+    for l in Driver.Api.finish q do out.putStrLn l
+    out.putStrLn "end"
+    loop h out .idle
+  | .api q, _ => loop h out (.api (Driver.Api.feed q toks))
 
 def main : IO Unit := do
   let out ← IO.getStdout
-  loop (← IO.getStdin) out
+  loop (← IO.getStdin) out .idle
   out.flush
